@@ -439,10 +439,20 @@ Definition extract_dense (c : cfg) (p : bparams) (dc : dcols) (q : list obj) : r
       Ok (mkDC (Some []) (c_info dc') (c_lats dc') (c_lons dc') (c_keyvals dc'), x_q x)
   end.
 
+(* if !foundIds && !foundInfo && !foundLats && !foundLons && !foundKeyVals { return nil }: a DenseNodes
+   message that carries no column at all is a group without nodes - protobuf encoders do not write
+   empty packed fields (fix: before it, "did not contain ids").  A message with denseinfo or
+   keys_vals but without ids / lats / lons is still an error.  The cached iterators stay as they
+   were (nothing was assigned, no nil-ing on this path). *)
+Definition dense_empty (fd : dfound) : bool :=
+  negb (fd_ids fd) && negb (fd_info fd) && negb (fd_lats fd) && negb (fd_lons fd) && negb (fd_kv fd).
+
 Definition scan_dense (c : cfg) (p : bparams) (dc : dcols) (m : msg) (q : list obj) : result (dcols * list obj) :=
   s <- dense_loop m (dc, df0) ;;;
-  dc1 <- dense_fixup s ;;;
-  extract_dense c p dc1 q.
+  if dense_empty (snd s) then Ok (fst s, q)
+  else
+    dc1 <- dense_fixup s ;;;
+    extract_dense c p dc1 q.
 
 (* ---------- scanPrimitiveGroup ---------- *)
 Record gst := mkG { g_d : dstate; g_way : way; g_rel : relation; g_q : list obj }.
